@@ -1,6 +1,6 @@
 SPECIFICATION FairSpec
 CONSTANTS
-  NCalls = 27
+  NCalls = 29
   MaxLen = 2
 PROPERTY HistoryDone
 PROPERTY ModesEventuallyRestored
